@@ -174,8 +174,13 @@ def txid_history(spec, part):
     wraps = 0
     for i in range(spec["n"]):
         c = cmd if i % 3 else other
-        fr = c.request_bytes()
         part.evaluations += 1
+        try:
+            fr = c.request_bytes()
+        except Exception as e:      # noqa
+            bad(part, "tcp", "request-raises", f"building transmission #{i + 1} of the process raised {type(e).__name__}: {e} (previous transaction id {prev})",
+                {"txid": True, "n": i + 1})
+            continue
         tx = int.from_bytes(fr[0:2], "big")
         if tx == 0:
             bad(part, "tcp", "transaction-id-zero", f"transmission #{i + 1}: transaction id 0 (previous {prev})", {"txid": True, "n": i + 1})
